@@ -6,6 +6,9 @@ CONSTANTS
     Design = "direct"
     Policy = "trust"
     RenameAt = "closed"
+    Memo = FALSE
+    MaxClear = 0
+    MaxExtra = 0
     MaxCrash = 1
     Fifo = TRUE
     EmitOn = FALSE
